@@ -144,13 +144,28 @@ class GuardFlow(MustFacts):
         st = super().test(expr, st)
         return st
 
+    branch_facts = False
+
     def assume(self, expr, truth, st):
         # the engine calls assume for both branches; whether the *other* branch
         # raises is looked up by the caller through `mark_guards`
         key = (id(expr), truth)
         extra = self._pending.get(key)
         if extra:
-            return frozenset(st | extra)
+            st = frozenset(st | extra)
+        if self.branch_facts:
+            # being inside the true / false branch of a test is a fact about the path
+            pre = "true:" if truth else "false:"
+            neg = isinstance(expr, ast.UnaryOp) and isinstance(expr.op, ast.Not)
+            if neg:
+                pre = "false:" if truth else "true:"
+                expr = expr.operand
+            # a conjunction holds as a whole only on its true branch
+            if isinstance(expr, ast.BoolOp) and isinstance(expr.op, ast.And) and pre == "false:":
+                return st
+            if isinstance(expr, ast.BoolOp) and isinstance(expr.op, ast.Or) and pre == "true:":
+                return st
+            st = frozenset(st | {pre + n for n in names_in(expr)})
         return st
 
     def mark_guards(self, fnode) -> None:
@@ -164,8 +179,10 @@ class GuardFlow(MustFacts):
                 self._pending[(id(n.test), True)] = facts
 
 
-def run_must(fnode, is_site, extra_facts=None, guards: bool = True, entry_facts=()) -> MustFacts:
+def run_must(fnode, is_site, extra_facts=None, guards: bool = True, entry_facts=(), branch_facts: bool = False) -> MustFacts:
     an = GuardFlow(is_site, extra_facts, entry_facts) if guards else MustFacts(is_site, extra_facts, entry_facts)
+    if guards:
+        an.branch_facts = branch_facts
     if guards:
         an.mark_guards(fnode)
     Engine(an).run(fnode)
